@@ -516,6 +516,7 @@ pub fn dml_menu(kind: Kind, thorough: bool) -> Vec<DOp> {
         m.push(DOp::Order(XS::Col("b"), OrderK::Nulls(true, true)));
         m.push(DOp::Order(XS::Col("s"), OrderK::Field(vec![V::Str("y".into()), V::Str("x".into())])));
         m.push(DOp::Limit(2));
+        m.push(DOp::Limit(0));
     };
     match kind {
         Kind::Insert => {
@@ -630,8 +631,10 @@ impl Model for DmlModel {
         apply_dspec(r, op);
         Ok(())
     }
-    fn canon(&self, s: &DSys, _r: &DSpec) -> u128 {
-        fp_str(&format!("{:?}", s.q))
+    fn canon(&self, s: &DSys, r: &DSpec) -> u128 {
+        // the reference state is hashed in too: a builder call that wrongly leaves the real statement unchanged must not
+        // be merged into the state it started from (over-fine is safe)
+        fp_str(&format!("{:?}#{:?}", s.q, r))
     }
     fn outcome(&self, s: &DSys, _r: &DSpec) -> u64 {
         fp_str(&catch(|| s.q.to_string_d(Dialect::Sqlite)).unwrap_or_default()) as u64
